@@ -416,6 +416,7 @@ func checkC06(p *Prog, r *Report) {
 					del = true
 				}
 			}
+			del = del || p.resetsOnAllPaths(f, Loc{p.CFG(f).Entry, 0}, fld, 1)
 			r.Check(del, "deleteAllCandidates empties "+fld, p.Pos(f.Body.Pos()), "every key deleted", fld+" is not emptied")
 		}
 	}
@@ -468,6 +469,13 @@ func checkC06(p *Prog, r *Report) {
 	}
 	if f := p.Fn("Agent.deleteAllCandidates"); f != nil {
 		for _, fld := range []string{"Agent.localCandidates", "Agent.remoteCandidates"} {
+			fld := fld
+			// either the map is emptied wholesale on every path ...
+			if p.resetsOnAllPaths(f, Loc{p.CFG(f).Entry, 0}, fld, 1) {
+				r.Trivial("deleteAllCandidates forgets every network type of "+fld, p.Pos(f.Body.Pos()), "the map is cleared / replaced on every path")
+				continue
+			}
+			// ... or every iteration of the loop over it deletes its key
 			found := false
 			walkBody(f, func(x ast.Node) bool {
 				rs, isR := x.(*ast.RangeStmt)
@@ -484,7 +492,7 @@ func checkC06(p *Prog, r *Report) {
 				return true
 			})
 			if !found {
-				r.Fail("deleteAllCandidates forgets every network type of "+fld, p.Pos(f.Body.Pos()), "the map is not ranged over")
+				r.Fail("deleteAllCandidates forgets every network type of "+fld, p.Pos(f.Body.Pos()), "the map is neither ranged over with a delete per key nor cleared on every path")
 			}
 		}
 	}
